@@ -503,6 +503,10 @@ class FakeTLSSocket(FakeSocket):
 
 
 class FakeTLSContext:
+    # what ssl.create_default_context() gives: the peer's certificate is checked against the host name connected to
+    check_hostname = True
+    verify_mode = 2      # ssl.CERT_REQUIRED
+
     def __init__(self, net):
         self.net = net
         self.wrapped = []
